@@ -154,6 +154,11 @@ def trust(chk, exe, cases, R, w, tier, rng):
                 lines.append(opp); meta.append(None)
                 lines.append("VERIFY " + v.hex() + fl); meta.append((c, p, v, ":parsed-under-another-context"))
                 lines.append("PCTX off"); meta.append(None)
+                if not c["trusted"] and filec is None and dict(a, store="ca", cons="email") == c_good() and a["cons"] in ("email", "wrongValue", "oneOfTwoWrong", "absentOid", "valueIsPrefix", "prefixOfValue", "caseDiffers"):
+                    # ... and trust is decided anew at every verification: the file object is first verified under the good configuration (trusted), then the
+                    # SAME context is given this case's trust store and constraints, and the SAME object is verified again
+                    lines.append("CTX %s %s %s" % (w.ca_pem, E, e(pubfile.EMAIL))); meta.append(None)
+                    lines.append("REVERIFY %s %s %s" % (v.hex(), store, " ".join("%s %s" % (o, e(vv)) for o, vv in ctxc))); meta.append((c, p, v, ":reverify"))
     outs, crashes = vlib.run_lines(exe, lines)
     for idx, rc, err in crashes:
         chk.violation("crash:trust", "libksi crashed verifying a publications file\n" + err[-1500:], dict(line=lines[idx][:4000], ctx=lines[idx - 1][:400]))
@@ -162,6 +167,10 @@ def trust(chk, exe, cases, R, w, tier, rng):
         if m is None or o is None:
             continue
         c, p, v, how = m; f = kv(o); n += 1
+        if how == ":reverify":
+            if int(f["parse"], 16) != 0 or int(f["first"], 16) != 0:
+                chk.violation("honest-untrusted:reverify-first", "a correctly signed file is not trusted under the good configuration: %s" % o, dict(case=c, file=v.hex(), out=o)); continue
+            f = dict(f, rc=f["second"])
         ok = int(f["parse"], 16) == 0 and int(f["rc"], 16) == 0
         a = c["case"]["c"]; dev = sorted(k for k in a if a[k] != c_good()[k])
         if ok and not c["trusted"]:
